@@ -286,7 +286,8 @@ def isJoinBlockTerminator (line : Line) : Bool :=
   else if strEq st "@join" then true
   else if sw st ":: " then true
   else
-    ["@if ", "@elif ", "@else:", "@endif", "@for ", "@endfor", "@py:", "@endpy"].any fun m =>
+    ["@if ", "@elif ", "@else:", "@endif", "@for ", "@endfor", "@py:", "@endpy",
+     "<<if ", "<<elif ", "<<else>>", "<<endif>>", "<<for ", "<<endfor>>", "<<py"].any fun m =>
       sw st m || strEq st (String.ofList (m.toList.reverse.dropWhile (· == ':')).reverse)
 
 /-- the collecting `while`: block lines and the index where it stopped -/
